@@ -214,6 +214,74 @@ def c12_applier(ctx):
 
 
 # ---------------------------------------------------------------------------------------------
+# Composer family: C10 C12 C14
+
+COMPOSER_ASSUME = [
+    "documents are projected to (id, content digest) lists; absent / null / [] key, service and also-known-as lists "
+    "are the same abstract document",
+    "the patch alphabet holds validated patches only (C13 decides what validation admits)",
+    "RFC 6902 is modelled for object members one and two levels deep (no arrays)",
+]
+
+COMPOSER_BIG = {"KIds": "{1, 2, 3}", "SIds": "{1, 2}", "URIs": "{1, 2, 3}"}
+
+
+def composer_runs(ctx):
+    if ctx.tier == "quick":
+        return [({"MaxLen": 3, "ListLens": "{1}"}, "documents within 3 single-patch applications"),
+                ({"MaxLen": 1, "ListLens": "{2}"}, "every two-patch list on the empty document")]
+    big = dict(COMPOSER_BIG)
+    big.update({"MaxLen": 4, "ListLens": "{1}"})
+    return [(big, "3 key ids, 2 service ids, 3 URIs: documents within 4 single-patch applications"),
+            ({"MaxLen": 2, "ListLens": "{2}"}, "every two-patch list on every document reachable by one")]
+
+
+def corrupt_composer(ev):
+    if ev.get("event") != "Apply" or not ev.get("ok"):
+        return None
+    ev = json.loads(json.dumps(ev))
+    ev["post"]["aka"] = ev["post"]["aka"] + [1]
+    return ev
+
+
+def composer_key(ev):
+    ps = ev.get("patches") or []
+    return ",".join(p.get("a", "?") + "".join(":" + j["op"] for j in p.get("ops", [])) for p in ps)
+
+
+def bump_doc(rec):
+    rec["post"]["aka"] = rec["post"]["aka"] + [2, 1]
+
+
+def c10(ctx):
+    ctx.rule = ("TLC explores the document graph reachable from the empty document by validated patches of all eight "
+                "actions (ids colliding with, partially overlapping and missing existing entries, an unknown id, "
+                "re-adds, replace, RFC 6902 add/remove/replace/move/copy/test on further members incl. lists failing "
+                "at the 2nd operation) and checks UniqueIds / ReplaceForgets / RoundTrip on every document; every "
+                "explored edge is replayed from its witness path through doccomposer.ApplyPatches and the projected "
+                "document and the applies / fails verdict are compared. distinct_nontrivial counts distinct patch-list "
+                "shapes. Random sequences of validated patch lists on the real composer are then trace-validated by TLC.")
+    ctx.assumptions = COMPOSER_ASSUME
+    first = None
+    for ov, label in composer_runs(ctx):
+        _, summ = ctx.tlc_pipe("MC_Composer.tla", "MC_Composer.cfg", ["composer-replay"], overrides=ov,
+                               label="exhaustive replay: " + label, timeout=3000)
+        first = first or summ["_first_edge"]
+    ctx.negctl_replay(["composer-replay"], first, bump_doc)
+    n = 1500 if ctx.tier == "quick" else 40000
+    validate_trace(ctx, "composer", ["-n", str(n), "-maxlen", "12"], "ComposerTrace.tla", "ComposerTrace.cfg",
+                   "composer_trace.ndjson", histories=n, key_of=composer_key, corrupt=corrupt_composer)
+
+
+def c12_composer(ctx):
+    only = "input-mutated,error-with-state,panic"
+    for ov, label in composer_runs(ctx)[:2]:
+        if ctx.tier == "thorough" and "KIds" in ov:
+            ov = dict(ov)
+            ov["MaxLen"] = 3
+        ctx.tlc_pipe("MC_Composer.tla", "MC_Composer.cfg", ["composer-replay", "-only", only], overrides=ov,
+                     label="composer: input digests before/after, " + label, timeout=3000)
+
 
 def replay(path):
     """re-execute exactly the case of a replay file against the current tree"""
@@ -264,16 +332,20 @@ def replay(path):
 
 
 def c12(ctx):
-    ctx.rule = ("every edge of the applier model (every failure class at every reachable state): deep digests of the "
-                "previous ResolutionModel, all its ancestors held by the caller, and the anchored operation are "
-                "taken before and after the real call and must be equal; an error must come with no state.")
+    ctx.rule = ("every edge of the applier model (every failure class at every reachable state) and of the composer model "
+                "(every patch list incl. lists failing at the 2nd patch / 2nd RFC 6902 operation): deep digests of the "
+                "previous ResolutionModel, all its ancestors held by the caller, the anchored operation, the input "
+                "document and the patch values are taken before and after the real call and must be equal; an error "
+                "must come with no state / no document.")
     ctx.assumptions = APPLIER_ASSUME + ["aliasing between result and input without mutation is not flagged"]
     c12_applier(ctx)
+    c12_composer(ctx)
 
 
 CHECKS = {
     "C01": c01,
     "C02": c02,
     "C09": c09,
+    "C10": c10,
     "C12": c12,
 }
